@@ -114,6 +114,7 @@ class Driver:
         max_n = quick_n if self.tier == 'quick' else int(os.environ.get('VERIF_MAX_N', '0')) or 10 ** 9
         agg = Aggregate(chk)
         violations: T.List[T.Tuple[int, T.Dict[str, T.Any], T.Dict[str, T.Any]]] = []
+        known_v: T.List[T.Tuple[int, T.Dict[str, T.Any], T.Dict[str, T.Any]]] = []
         herrors: T.List[T.Tuple[int, T.Dict[str, T.Any]]] = []
         next_index = 0
         with self.pool() as ex:
@@ -145,7 +146,10 @@ class Driver:
                         continue
                     agg.add(index, sc, out)
                     if out['status'] == 'violation':
-                        violations.append((index, sc, out))
+                        if F.match(self.findings, chk.id, out.get('signature', out['vclass'])) is not None:
+                            known_v.append((index, sc, out))
+                        else:
+                            violations.append((index, sc, out))
                     elif out['status'] == 'harness_error':
                         herrors.append((index, out))
                 if len(violations) >= 40 or len(herrors) >= 20:
@@ -159,7 +163,7 @@ class Driver:
             reported: T.List[T.Dict[str, T.Any]] = []
             known_lines: T.Dict[str, str] = {}
             seen_sigs: T.Set[str] = set()
-            for index, sc, out in sorted(violations, key=lambda v: v[0]):
+            for index, sc, out in sorted(violations + known_v, key=lambda v: v[0]):
                 sig = out.get('signature', out['vclass'])
                 for xs in out.get('extra_known') or []:
                     xk = F.match(self.findings, chk.id, xs)
